@@ -36,10 +36,11 @@ GROUPS: dict[str, list[tuple[str, str]]] = {
     "constraint": [("constraints.py", "Constraint"), ("constraints.py", "_make_constraint")],
     "vecmat": [("core/vectors.py", "VectorVariable"), ("core/matrices.py", "MatrixVariable")],
     "parameter": [("core/parameters.py", "Parameter"), ("core/parameters.py", "_as_parameter_value")],
-    "problem_edit": [("problem.py", f"Problem.{m}") for m in ("__init__", "_invalidate_caches", "minimize", "maximize", "subject_to",
-                                                               "_validate_expression", "_validate_constraint", "_is_linear_problem",
+    # __init__, _invalidate_caches, minimize, maximize, subject_to, _is_linear_problem, n_variables, get_bounds are translated
+    # (py2lean_state.py -> Generated/ProblemEdit, Props/StateTie) and therefore not anchored
+    "problem_edit": [("problem.py", f"Problem.{m}") for m in ("_validate_expression", "_validate_constraint",
                                                                "_only_simple_bounds", "_has_equality_constraints")],
-    "problem_read": [("problem.py", f"Problem.{m}") for m in ("variables", "n_variables", "n_constraints", "get_bounds", "summary",
+    "problem_read": [("problem.py", f"Problem.{m}") for m in ("variables", "n_constraints", "summary",
                                                                "objective", "sense", "constraints")],
     "get_variables": [("core/expressions.py", "get_all_variables"), ("core/expressions.py", "_get_variables_iterative"),
                       ("core/expressions.py", "_estimate_tree_depth")]
